@@ -12,6 +12,7 @@ import (
 	proto "github.com/kubewharf/kubebrain-client/api/v2rpc"
 
 	"github.com/kubewharf/kubebrain/pkg/backend"
+	"github.com/kubewharf/kubebrain/pkg/backend/tso"
 	"github.com/kubewharf/kubebrain/pkg/server/service/leader"
 	"github.com/kubewharf/kubebrain/pkg/storage"
 	"github.com/kubewharf/kubebrain/zz_verif/h/hx"
@@ -65,7 +66,64 @@ func becomeLeader(kv storage.KvStorage, identity string) (backend.Backend, resou
 	return b, rl, takeOver(b, rl, identity)
 }
 
+// c15TsoOpNames: the alphabet of the revision-allocator search (the component every node's revisions come from).
+var c15TsoOpNames = []string{"deal", "commit-oldest-outstanding", "become-leader(store unchanged)", "become-leader(another leader wrote 5 more)"}
+
+// c15TsoRun drives the real revision allocator alone: requests deal revisions, the sequencer commits
+// them in order, and at any point - also with revisions dealt and not yet committed, i.e. writes in
+// flight - the node becomes leader: it is given an engine timestamp above everything in the store
+// (the engine contract; the stores' own timestamps are the subject of the node-level histories).
+// Every revision dealt afterwards has to exceed everything the store held at that moment.
+func c15TsoRun(hist []int) *mc.SeqOut {
+	out := &mc.SeqOut{}
+	n := tso.NewTSO()
+	n.Init(100)
+	var outstanding []uint64
+	stored := uint64(100) // highest revision any leader has written so far
+	floor := uint64(0)    // what the store held when this node last became leader
+	last := uint64(0)     // last revision this node dealt
+	for i, a := range hist {
+		switch a {
+		case 0:
+			r, err := n.Deal()
+			out.Evals++
+			if err != nil || r <= floor || r <= last {
+				var hs []string
+				for _, h := range hist[:i+1] {
+					hs = append(hs, c15TsoOpNames[h])
+				}
+				out.Viols = append(out.Viols, mc.Violation{Sig: "C15|new-revision-not-above-stored|revision-allocator", Detail: fmt.Sprintf("allocator history [%s]: dealt revision %d (err %v); the store held revision %d when the node became leader, the node's previous revision was %d", strings.Join(hs, ", "), r, err, floor, last)})
+				return out
+			}
+			last = r
+			outstanding = append(outstanding, r)
+			if r > stored {
+				stored = r
+			}
+		case 1:
+			if len(outstanding) == 0 {
+				return out // not enabled: terminal
+			}
+			n.Commit(outstanding[0])
+			outstanding = outstanding[1:]
+		default:
+			if a == 3 {
+				stored += 5
+			}
+			floor = stored
+			n.Commit(stored + 1) // SetCurrentRevision(engine timestamp) in OnStartedLeading
+			stored++             // the timestamp itself is not handed out again
+		}
+	}
+	out.Key = fmt.Sprint(hist)
+	out.Obs = fmt.Sprintf("outstanding=%d", len(outstanding))
+	return out
+}
+
 func c15Run(cfgIdx int, hist []int) *mc.SeqOut {
+	if cfgIdx == 2*len(c15Engines) {
+		return c15TsoRun(hist)
+	}
 	engine := c15Engines[cfgIdx%len(c15Engines)]
 	// mode 0: the new leader is a node started after the old one stopped (restart / late joiner);
 	// mode 1: the new leader is a standby that has been polling the lock during the old leader's term
@@ -259,7 +317,7 @@ func init() {
 	mc.Register(&mc.Property{
 		ID:     "C15",
 		Level:  "fault_enumeration",
-		Rule:   "every history of the old leader up to depth 3 (thorough 5) over {create/update/delete on 2 keys, 1/10/100 failed writes (which consume revisions without touching the engine), lock renewal}, the old leader stopping after every history (every prefix is a history), then a new leader over the same store - either a node started afterwards, or a standby created at the start that polled the lock and served a follower read (adopting the leader's read revision) during the old leader's term, after its election and after every renewal - taking the lock over through the real resource lock (get, update, get) and running the production OnStartedLeading code; on memkv (virtual clock advanced by 1 ms), badger and tikv-mock with a fresh database per history; oracle: the first three revisions of the new leader exceed every revision in the store, guarded updates of all pre-existing live keys succeed, List equals the model; a case is distinct by its history and engine",
+		Rule:   "every history of the old leader up to depth 3 (thorough 5) over {create/update/delete on 2 keys, 1/10/100 failed writes (which consume revisions without touching the engine), lock renewal}, the old leader stopping after every history (every prefix is a history), then a new leader over the same store - either a node started afterwards, or a standby created at the start that polled the lock and served a follower read (adopting the leader's read revision) during the old leader's term, after its election and after every renewal - taking the lock over through the real resource lock (get, update, get) and running the production OnStartedLeading code; on memkv (virtual clock advanced by 1 ms), badger and tikv-mock with a fresh database per history; oracle: the first three revisions of the new leader exceed every revision in the store, guarded updates of all pre-existing live keys succeed, List equals the model; a case is distinct by its history and engine; plus every history up to depth 8 (thorough 11) of the real revision allocator alone over {deal, commit the oldest outstanding revision, become leader with an engine timestamp above the store (unchanged / after another leader wrote 5 more)} - i.e. also taking over with writes in flight - every dealt revision exceeding what the store held at the last take-over and every earlier one",
 		Assume: []string{"OnStartedLeading is the production function literal, lifted by the instrumenter into a callable method (client-go's real-time elector loop is not run)", "the old leader is simply not used any more (crash = stop)"},
 		Exec:   func(j *mc.Job) *mc.JobResult { return mc.SeqExec(j, c15Run) },
 		Drive: func(c *mc.Ctx) {
@@ -278,6 +336,15 @@ func init() {
 				total.Transitions += st.Transitions
 				total.Evals += st.Evals
 			}
+			tsoDepth := 8
+			if c.Tier == "thorough" {
+				tsoDepth = 11
+			}
+			st := mc.DriveSeq(c, "bfs", 2*len(c15Engines), len(c15TsoOpNames), tsoDepth)
+			per["revision-allocator"] = st
+			total.States += st.States
+			total.Transitions += st.Transitions
+			total.Evals += st.Evals
 			c.Cov["states"] = total.States
 			c.Cov["transitions"] = total.Transitions
 			c.Cov["oracle_evaluations"] = total.Evals
